@@ -34,6 +34,43 @@ CHECKS = {
             'Calculate must emit nothing and the data must be identical.', '§2 C07', HIST_NOTE),
 }
 
+def H(pid, text, tech='explicit-state history exploration of the real engine', ref=None):
+  CHECKS[pid] = ('model_checking', tech, text, ref or ('§2 ' + pid), HIST_NOTE)
+
+
+def E(pid, text, tech='exhaustive enumeration of a finite input space vs reference oracle', ref=None,
+      cat='exploration'):
+  CHECKS[pid] = (cat, tech, text, ref or ('§2 ' + pid), ENUM_NOTE)
+
+
+H('C08', 'All histories of schema-affecting bundles (incl. failing ones): after each bundle, successful '
+         'or rolled back, an independently built schema from the metadata rows must equal '
+         'engine.schema and no column record may lack a table record.')
+H('C09', 'All histories of table/column/view/section/field/summary actions: after each successful '
+         'bundle every reference in the metadata tables must resolve, helper columns must be in use, '
+         'and each user table has exactly one record with a raw section.')
+H('C10', 'All histories whose last bundle makes rows disappear: no Ref/RefList data cell of any user '
+         'or metadata table may still hold a removed id; RefLists keep the other ids in order.')
+H('C11', 'All histories over the two-way reference world: every reverse-linked column pair is '
+         'symmetric after each successful bundle; rejected bundles leave the dump unchanged.')
+H('C12', 'All histories over the summary world: each summary table is compared with a reference '
+         'group-by of its source after every successful bundle.')
+H('C13', 'All histories over the lookup world: 18 lookup specs x lookupRecords/lookupOne compared with '
+         'a naive filter + documented sort after every bundle.')
+H('C31', 'All histories of record-edit bundles: direct flags parallel stored actions; formula '
+         'results, summary row maintenance and empty-column conversions must be non-direct, the '
+         'requested edits direct.')
+E('C34', 'Every bundled zone x every transition instant x probe offsets: timestamp round trip, '
+         'date round trip (UTC and in-zone), and local ambiguous/skipped times get an adjacent offset; '
+         'reference reads the raw tz table.')
+E('C35', 'Intervals x slot lists x starts x counts x ends vs a brute-force occurrence generator; '
+         'malformed strings must raise ValueError.')
+E('C36', 'Every indentation sequence of length <= 5/6 over 4 levels x every removal subset: valid '
+         'tree, never deeper, only violating pages changed.')
+E('C38', 'Complete entry-by-entry differential of the single configuration: schema.ts vs generator '
+         'output/schema.py and gristTypes.ts defaults vs usertypes defaults.',
+  tech='complete differential over one configuration (degenerate space)', cat='other')
+
 PLANNED = {}
 
 
